@@ -17,7 +17,7 @@ import (
 func init() {
 	Register(&Scenario{
 		Prop: "C19", Run: scenarioC19, QuickRuns: 24000, ThoroughRuns: 4000000, Level: "exploration",
-		Rule:       "one run = one seeded experiment executed by the real Experiment.Execute with the scripted evaluator (complete, solved early, or cut short by an evaluator error / cancellation); afterwards every experiment- and trial-level aggregate (solved count, success rate, per-trial best fitness / species age / complexity, diversity, epochs per trial and their average, winner statistics per trial and averaged, per-generation champion ages, complexities and series averages, best-organism searches of trial and experiment with and without the solvers-only filter) is recomputed from the recorded generations by the reference and compared, and every Floats accessor is evaluated on every recorded series (per-species fitness, age and complexity - naturally unsorted), on tape-chosen permutations and prefixes of them (incl. the empty one) against textbook mean, unbiased variance, standard deviation, min, max, sum and the empirical quantile x(ceil(n*p)); a panic is a violation. A case is one series or one aggregate comparison; non-trivial when a series has >= 3 elements out of order or the experiment has a solved and an unsolved trial; distinct by series hash",
+		Rule:       "one run = one seeded experiment executed by the real Experiment.Execute with the scripted evaluator (complete, solved early, or cut short by an evaluator error / cancellation); afterwards every experiment- and trial-level aggregate (solved count, success rate, per-trial best fitness / species age / complexity, diversity, epochs per trial and their average, winner statistics per trial and averaged, per-generation champion ages, complexities and series averages, best-organism searches of trial and experiment with and without the solvers-only filter, and the clock-derived ones: average generation duration per trial and per experiment, average trial duration, most recent evaluation instant per trial and per experiment - exact integer functions of the durations and instants the run's simulated or real clock left in the records) is recomputed from the recorded generations by the reference and compared, and every Floats accessor is evaluated on every recorded series (per-species fitness, age and complexity - naturally unsorted), on tape-chosen permutations and prefixes of them (incl. the empty one) against textbook mean, unbiased variance, standard deviation, min, max, sum and the empirical quantile x(ceil(n*p)); a panic is a violation. A case is one series or one aggregate comparison; non-trivial when a series has >= 3 elements out of order or the experiment has a solved and an unsolved trial; distinct by series hash",
 		RealParts:  []string{"experiment.Floats, Experiment / Trial / Generation aggregate accessors, Generation.FillPopulationStatistics", "Experiment.Execute producing the records (sequential executor, fake clock)"},
 		StubParts:  []string{"GenerationEvaluator (scripted)", "wall clock"},
 		Assumes:    []string{"reference meanings are the accessor documentation: solved count = trials with a solved generation; per-trial best = the generation champion of maximal fitness (ties: any of them); winner statistics = first solved generation, averaged over solved trials, -1 when none; trials left unrecorded by an aborted run are zero-valued records", "relative tolerance 1e-9"},
@@ -560,6 +560,7 @@ func checkAggregates(c *RunCtx, exp *experiment.Experiment, ctx func() string) {
 			c.Fail("aggregate:AvgGenerationsPerTrial", "AvgGenerationsPerTrial() = %v, the %d trials record %v generations on average\n%s", got, nT, want, ctx())
 		}
 	}
+	checkTimeAggregates(c, exp, ctx)
 	var gotSolvedN int
 	var gotRate float64
 	var gotBestFit, gotBestAge, gotBestCx, gotDiv, gotEpochs experiment.Floats
@@ -717,4 +718,91 @@ func RecordSurgery(t *Tape, exp *experiment.Experiment) string {
 		}
 	}
 	return surgery
+}
+
+// checkTimeAggregates recomputes the clock-derived aggregates from the recorded generations and trials: the average
+// generation duration of a trial and of the experiment, the average trial duration, the most recent evaluation instant
+// of a trial and of the experiment. The durations and instants themselves come from the run's clock (the simulated one
+// in bubble runs: drawn evaluator sleeps, jumps between generations) or from record surgery; the aggregates are exact
+// integer functions of them (a mean of durations is the sum divided by the count, truncated as time.Duration division
+// does). A mean over nothing is the documented EmptyDuration; the experiment's mean of per-trial means is judged only
+// when every trial has a generation (a trial without one has no mean to contribute, and the statement does not say
+// what it counts as).
+func checkTimeAggregates(c *RunCtx, exp *experiment.Experiment, ctx func() string) {
+	meanDur := func(ds []time.Duration) (time.Duration, bool) {
+		if len(ds) == 0 {
+			return experiment.EmptyDuration, true
+		}
+		sum := new(big.Int)
+		for _, d := range ds {
+			sum.Add(sum, big.NewInt(int64(d)))
+		}
+		if !sum.IsInt64() {
+			return 0, false // the library's own int64 sum overflows: not judged
+		}
+		return time.Duration(sum.Int64() / int64(len(ds))), true
+	}
+	var trialMeans, trialDurs []time.Duration
+	allTrialsHaveGenerations := true
+	var newest time.Time
+	for ti := range exp.Trials {
+		tr := &exp.Trials[ti]
+		var ds []time.Duration
+		var recent time.Time
+		for gi := range tr.Generations {
+			g := &tr.Generations[gi]
+			ds = append(ds, g.Duration)
+			if g.Executed.After(recent) {
+				recent = g.Executed
+			}
+		}
+		if recent.After(newest) {
+			newest = recent
+		}
+		trialDurs = append(trialDurs, tr.Duration)
+		var got time.Duration
+		var gotRecent time.Time
+		c.Lib("Trial.AvgEpochDuration / RecentEpochEvalTime", func() { got = tr.AvgEpochDuration(); gotRecent = tr.RecentEpochEvalTime() })
+		want, ok := meanDur(ds)
+		if !ok {
+			c.Count("skipped.duration-sum-overflow")
+			allTrialsHaveGenerations = false
+		} else {
+			if got != want {
+				c.Fail("aggregate:Trial.AvgEpochDuration", "trial %d: AvgEpochDuration() = %v, the %d recorded generation durations %v average %v\n%s", ti, got, len(ds), ds, want, ctx())
+			}
+			trialMeans = append(trialMeans, want)
+		}
+		if len(ds) == 0 {
+			allTrialsHaveGenerations = false
+			c.Count("probe.time.trial_without_generations")
+		}
+		if !gotRecent.Equal(recent) {
+			c.Fail("aggregate:Trial.RecentEpochEvalTime", "trial %d: RecentEpochEvalTime() = %v, the latest recorded evaluation instant is %v\n%s", ti, gotRecent, recent, ctx())
+		}
+		if len(ds) > 1 {
+			c.Count("probe.time.trial_mean_over_several_generations")
+		}
+	}
+	var gotTrial, gotEpoch time.Duration
+	var gotNewest time.Time
+	c.Lib("Experiment.AvgTrialDuration / AvgEpochDuration / MostRecentTrialEvalTime", func() {
+		gotTrial = exp.AvgTrialDuration()
+		gotEpoch = exp.AvgEpochDuration()
+		gotNewest = exp.MostRecentTrialEvalTime()
+	})
+	if want, ok := meanDur(trialDurs); ok && gotTrial != want {
+		c.Fail("aggregate:AvgTrialDuration", "AvgTrialDuration() = %v, the %d recorded trial durations %v average %v\n%s", gotTrial, len(trialDurs), trialDurs, want, ctx())
+	}
+	if allTrialsHaveGenerations || len(exp.Trials) == 0 {
+		if want, ok := meanDur(trialMeans); ok && gotEpoch != want {
+			c.Fail("aggregate:AvgEpochDuration", "AvgEpochDuration() = %v, the per-trial average generation durations %v average %v\n%s", gotEpoch, trialMeans, want, ctx())
+		}
+	}
+	if !gotNewest.Equal(newest) {
+		c.Fail("aggregate:MostRecentTrialEvalTime", "MostRecentTrialEvalTime() = %v, the latest recorded evaluation instant of any trial is %v\n%s", gotNewest, newest, ctx())
+	}
+	if !newest.IsZero() {
+		c.Count("probe.time.instants_recorded")
+	}
 }
